@@ -61,6 +61,8 @@ def make_world():
 
         def extend(self, xs):
             xs = list(xs)
+            if not xs:
+                return      # extending by nothing is not an observable state change (the VM skips the call)
             log.append(("method", id_of(self), "extend", canon(xs)))
             self._state.append(("extend", xs))
 
@@ -73,6 +75,8 @@ def make_world():
             self._state.append(("add", v))
 
         def update(self, *a, **k):
+            if not k and all(not x for x in a):
+                return      # updating with nothing is not an observable state change (the VM skips the call)
             log.append(("method", id_of(self), "update", canon(a), canon(k)))
             self._state.append(("update", a, k))
 
@@ -207,11 +211,22 @@ def exec_decompiled(src):
             setattr(m, n, stub(name, n))
         return m
 
-    bi = {n: stub("builtins", n) for n in dir(builtins) if not n.startswith("__")}
+    real_names = set(n for n in dir(builtins) if not n.startswith("__"))
+
+    class LazyBuiltins(dict):
+        """every builtin name resolves to an inert stub, created on first use"""
+
+        def __missing__(self, n):
+            if n in real_names:
+                v = stub("builtins", n)
+                self[n] = v
+                return v
+            raise KeyError(n)
+
+    bi = LazyBuiltins()
     for n in ("True", "False", "None"):
         bi[n] = getattr(builtins, n)
-    # decompiled programs build containers with literal syntax; set()/frozenset() of nothing are
-    # the only constructor spellings a printer needs for values without literal syntax
+    # decompiled programs build containers with literal syntax; no real builtin is ever needed
     bi["__import__"] = imp
 
     class UNP:
